@@ -41,18 +41,20 @@ pub fn judge_b(c: &BCfg, bt: &BTrace) -> Vec<MViol> {
     // L1: liveness. Fewer than 6 network faults in the whole run cannot make 6 consecutive receive attempts fail
     // in a conformant system, so with < 6 faults completion is asserted unconditionally.
     let hypothesis = bt.faults.len() < RETRY_BUDGET && !sum.error_delivered && !sum.tolerated_abort_cause;
+    // for transfers beyond 65535 blocks, failing to get through a fault at the wrap is also a C15 matter
+    let lp: &[&'static str] = if c.x.kfinal() > 65535 { &["C04", "C15"] } else { &["C04"] };
     if hypothesis {
         match role {
             Role::Sender => {
                 // receiving side = peer
                 if !bt.peer_done && !bt.peer_failed {
-                    v.push(mv("L1-download-incomplete", &["C04"], format!("download did not complete at the client although at most {} consecutive receive attempts of the server failed", sum.max_consecutive_failures), &[("role", json!("sender"))]));
+                    v.push(mv("L1-download-incomplete", lp, format!("download did not complete at the client although at most {} consecutive receive attempts of the server failed", sum.max_consecutive_failures), &[("role", json!("sender"))]));
                 }
                 if bt.peer_failed && !bt.peer_done {
-                    v.push(mv("L1-download-starved", &["C04"], "the conformant client exhausted its 8 retries: the server stopped making progress".into(), &[("role", json!("sender"))]));
+                    v.push(mv("L1-download-starved", lp, "the conformant client exhausted its 8 retries: the server stopped making progress".into(), &[("role", json!("sender"))]));
                 }
                 if !sum.finished && (bt.final_ack_delivered_to_sender || c.dally) && bt.peer_done {
-                    v.push(mv("L1-sender-gave-up", &["C04"], "the server's sending side ended unsuccessfully although the final ACK reached it / the client dallied".into(), &[("role", json!("sender"))]));
+                    v.push(mv("L1-sender-gave-up", lp, "the server's sending side ended unsuccessfully although the final ACK reached it / the client dallied".into(), &[("role", json!("sender"))]));
                 }
             }
             Role::Receiver => {
@@ -61,7 +63,7 @@ pub fn judge_b(c: &BCfg, bt: &BTrace) -> Vec<MViol> {
                 if !complete {
                     v.push(mv(
                         "L1-upload-incomplete",
-                        &["C04"],
+                        lp,
                         format!(
                             "upload did not complete on the server (final block acknowledged: {}, file: {}) although at most {} consecutive receive attempts failed; client state: done={} gave_up={}",
                             sum.finished,
